@@ -401,7 +401,7 @@ impl Property for C17 {
     fn cases(&self, tier: Tier) -> u64 {
         match tier {
             Tier::Quick => 2_500,
-            Tier::Thorough => 50_000,
+            Tier::Thorough => 40_000,
         }
     }
     fn gen(&self, cs: u64, _tier: Tier, _ctx: &ExecCtx) -> Value {
